@@ -117,24 +117,26 @@ theorem droppedB_of (s : St) (c : Change) (d : Nat × Batch) (g : Group)
   refine ⟨g, hg, ?_⟩
   simp [hi, hc]
 
-theorem top_init_mr (b mr : Nat) (hb : 0 < b) : Top { batchSz := b, maxRetries := mr } := by
+theorem top_init_mr (b mr : Nat) (und : List Nat) (hb : 0 < b) :
+    Top { batchSz := b, maxRetries := mr, undecodable := und } := by
   have h := top_init b hb
   exact ⟨base_transfer _ _ _ h.base rfl rfl rfl rfl rfl rfl rfl rfl rfl rfl,
     cov_transfer _ _ _ h.cov (fun x hx _ => hx) rfl rfl rfl rfl rfl rfl, h.logOk, h.sorted, h.frontLe⟩
 
-/-- **At least once, unless a finite retry limit is configured and exhausted** — the
-property's own exception made explicit: for every batch size and EVERY retry limit `mr`
-(0 = none), under the same histories as `at_least_once_partial`, every change has been
-POSTed with its entry's index, or was in an event the leader gave up on after the limit
-(`dropped`), or lies at or below an HWM announced by another node. -/
-theorem at_least_once_or_retry_limit (b mr : Nat) (ops : List Op) (hb : 0 < b) (hwf : wfOps 0 ops) :
+/-- **At least once, unless the leader loop explicitly gives the event up** — the two DROP
+branches of the leader loop made explicit: for every batch size, EVERY retry limit `mr`
+(0 = none) and EVERY set `und` of FIFO keys whose stored bytes do not decompress, under the
+same histories as `at_least_once_partial`, every change has been POSTed with its entry's
+index, or was in an event the leader gave up on (`dropped`: retry limit exhausted, or
+decompression failed), or lies at or below an HWM announced by another node. -/
+theorem at_least_once_or_dropped (b mr : Nat) (und : List Nat) (ops : List Op) (hb : 0 < b) (hwf : wfOps 0 ops) :
     ∀ c ∈ changesOf ops,
-      deliveredB (run { batchSz := b, maxRetries := mr } (ops ++ heal)) c = true ∨
-      droppedB (run { batchSz := b, maxRetries := mr } (ops ++ heal)) c = true ∨
-      c.1 ≤ (run { batchSz := b, maxRetries := mr } (ops ++ heal)).maxIn := by
+      deliveredB (run { batchSz := b, maxRetries := mr, undecodable := und } (ops ++ heal)) c = true ∨
+      droppedB (run { batchSz := b, maxRetries := mr, undecodable := und } (ops ++ heal)) c = true ∨
+      c.1 ≤ (run { batchSz := b, maxRetries := mr, undecodable := und } (ops ++ heal)).maxIn := by
   intro c hc
-  have h0 := top_init_mr b mr hb
-  have hw0 : wfOps (lastIdx ({ batchSz := b, maxRetries := mr } : St).log) ops := by simpa [lastIdx] using hwf
+  have h0 := top_init_mr b mr und hb
+  have hw0 : wfOps (lastIdx ({ batchSz := b, maxRetries := mr, undecodable := und } : St).log) ops := by simpa [lastIdx] using hwf
   have ht := top_run _ ops h0 hw0
   obtain ⟨_, hlogE⟩ := log_of_run _ ops h0 hw0
   rw [run_append]
@@ -145,10 +147,10 @@ theorem at_least_once_or_retry_limit (b mr : Nat) (ops : List Op) (hb : 0 < b) (
   cases op with
   | entry e =>
     simp only at hcop
-    have he : e ∈ (run { batchSz := b, maxRetries := mr } ops).log := hlogE e hop
+    have he : e ∈ (run { batchSz := b, maxRetries := mr, undecodable := und } ops).log := hlogE e hop
     have hs := (ht.logOk e he).2.2
-    obtain ⟨g, hg, hgi, hcg, hc1⟩ := change_in_group (run (run { batchSz := b, maxRetries := mr } ops) heal).keepIdx e hs c hcop
-    have hgG : g ∈ groups (run (run { batchSz := b, maxRetries := mr } ops) heal) := by
+    obtain ⟨g, hg, hgi, hcg, hc1⟩ := change_in_group (run (run { batchSz := b, maxRetries := mr, undecodable := und } ops) heal).keepIdx e hs c hcop
+    have hgG : g ∈ groups (run (run { batchSz := b, maxRetries := mr, undecodable := und } ops) heal) := by
       rw [mem_groups]; exact ⟨e, by rw [hlog]; exact he, hg⟩
     rcases done_of_drained _ htF hbat hheld hne g hgG with (⟨d, hd, hgd⟩ | ⟨d, hd, hgd⟩) | h
     · left; exact deliveredB_of _ c d g hd hgd (by rw [hgi, hc1]) hcg
@@ -162,6 +164,61 @@ theorem at_least_once_or_retry_limit (b mr : Nat) (ops : List Op) (hb : 0 < b) (
   | tick => simp at hcop
   | restart => simp at hcop
 
+/-- **At least once, unless a finite retry limit is configured and exhausted** — the
+property's own exception: with every stored item decodable (`und = []`, see `FlateLaw`),
+for every batch size and EVERY retry limit `mr` (0 = none), every change has been POSTed
+with its entry's index, or was in an event the leader gave up on after the limit
+(`dropped`), or lies at or below an HWM announced by another node. -/
+theorem at_least_once_or_retry_limit (b mr : Nat) (ops : List Op) (hb : 0 < b) (hwf : wfOps 0 ops) :
+    ∀ c ∈ changesOf ops,
+      deliveredB (run { batchSz := b, maxRetries := mr } (ops ++ heal)) c = true ∨
+      droppedB (run { batchSz := b, maxRetries := mr } (ops ++ heal)) c = true ∨
+      c.1 ≤ (run { batchSz := b, maxRetries := mr } (ops ++ heal)).maxIn :=
+  at_least_once_or_dropped b mr [] ops hb hwf
+
+/-! ### the stored form of a FIFO item
+
+The FIFO stores `flate.Compress(json.Marshal(batch))`; the leader loop sends
+`flate.Decompress(stored)`. `FlateLaw` is what the delivery theorems assume of that pair: a
+round trip for EVERY input, with NO bound on its size (one batch holds up to
+`MaxBatchSz` groups, one group every row a transaction touched: tens of MiB are ordinary).
+`internal/rarchive/flate` is tied to it by the regenerated fact
+`C25.flate_decompress_unbounded` and by a round-trip oracle on 9–16 MiB inputs. -/
+
+structure FlateLaw (β : Type) where
+  compress : Batch → β
+  decompress : β → Option Batch
+  round : ∀ b : Batch, decompress (compress b) = some b
+
+/-- FIFO keys of items the leader loop cannot decode, for an ARBITRARY compress/decompress pair -/
+def undecodableKeys {β : Type} (compress : Batch → β) (decompress : β → Option Batch)
+    (items : List (Nat × Batch)) : List Nat :=
+  (items.filter fun it => (decompress (compress it.2)).isNone).map (·.1)
+
+/-- under the law no stored item is undecodable: the `und = []` of the theorems below -/
+theorem lawful_flate_decodes_everything {β : Type} (L : FlateLaw β) (items : List (Nat × Batch)) :
+    undecodableKeys L.compress L.decompress items = [] := by
+  unfold undecodableKeys
+  simp [L.round]
+
+/-- a decompressor that refuses outputs above a size bound (size = number of changes) is NOT
+lawful: here the bound is 2 -/
+def boundedDecompress (bound : Nat) (b : Batch) : Option Batch :=
+  if (b.map (·.chg.length)).sum > bound then none else some b
+
+/-- **Witness: a size bound in `Decompress` loses changes for good.** One transaction
+touching three statements' rows (one group of 3 changes, stored under key 1) followed by
+a small write; decompression refuses anything above 2 changes. On the healed leader the big
+event is dropped (no POST, not even a failed one), the small one is delivered, the HWM
+passes 1: the three changes of entry 1 are never delivered, with no retry limit set. -/
+theorem decode_failure_witness :
+    let big : Entry := ⟨1, true, [1, 1, 1]⟩
+    let und := undecodableKeys id (boundedDecompress 2) [(1, streamEntry big)]
+    let s := run { batchSz := 1, undecodable := und } ([.entry big, .entry ⟨2, false, [1]⟩] ++ heal)
+    und = [1] ∧ deliveredB s (1, 0) = false ∧ droppedB s (1, 0) = true ∧
+      deliveredB s (2, 0) = true ∧ s.hwm = 2 ∧ s.fifo.nextEv = none ∧ s.maxRetries = 0 := by
+  decide
+
 /-- **At least once, with the entry's index** (the part of the full statement that holds).
 For EVERY batch size and EVERY history of applied log entries (strictly increasing indexes,
 each yielding at most one event group: single-statement requests, requests in a
@@ -171,7 +228,9 @@ nodes, HWM ticks and restarts with raft replay, in any order and number: once th
 works, this node leads and the batcher's timer has fired, every change of every applied
 entry has been POSTed in a group labelled with its entry's index — or lies at or below a
 high-water mark announced by another node (which, by that node's own guarantee, delivered
-it). -/
+it). Hypotheses carried by the initial state: no finite retry limit (`maxRetries = 0`) and
+every stored item decompresses (`undecodable = []`, i.e. `FlateLaw`; see
+`lawful_flate_decodes_everything`, `flate_decompress_unbounded`, `decode_failure_witness`). -/
 theorem at_least_once_partial (b : Nat) (ops : List Op) (hb : 0 < b) (hwf : wfOps 0 ops) :
     ∀ c ∈ changesOf ops,
       deliveredB (run { batchSz := b } (ops ++ heal)) c = true ∨
@@ -181,7 +240,7 @@ theorem at_least_once_partial (b : Nat) (ops : List Op) (hb : 0 < b) (hwf : wfOp
   · exact Or.inl h
   · -- no retry limit: nothing is ever dropped
     exfalso
-    have := (run_no_drop { batchSz := b, maxRetries := 0 } (ops ++ heal) rfl rfl).1
+    have := (run_no_drop { batchSz := b, maxRetries := 0 } (ops ++ heal) rfl rfl rfl).1
     unfold droppedB at h
     rw [this] at h
     simp at h
@@ -241,6 +300,28 @@ keeps an unsent event across a stop (the model's `held` surviving `leader false`
 theorem service_facts :
     RqModel.Gen.CdcPipe.syncDrainsHandoff = some true ∧
     RqModel.Gen.CdcPipe.leaderKeepsUnsent = some true := by decide
+
+/-- internal/rarchive/flate (the package `cdc/service.go` imports as `flate`): `Decompress`
+reads the WHOLE inflated stream — a `bytes.Reader` over the input, the standard library's
+inflater, `io.ReadAll` — with no limit reader and no size error, and `Compress` writes the
+whole input and closes the writer. With the standard library's deflate round trip this is
+`FlateLaw.round` for inputs of any size. The correspondence run checks the round trip itself
+on 9–16 MiB inputs. -/
+theorem flate_decompress_unbounded :
+    RqModel.Gen.CdcPipe.cdcFlateImport = "github.com/rqlite/rqlite/v10/internal/rarchive/flate" ∧
+    RqModel.Gen.CdcPipe.flateDecompressStmts =
+      ["reader := bytes.NewReader(data)", "r := flate.NewReader(reader)", "defer r.Close()",
+       "return io.ReadAll(r)"] ∧
+    RqModel.Gen.CdcPipe.flateCompressStmts =
+      ["var buf bytes.Buffer", "w, err := flate.NewWriter(&buf, flate.BestCompression)",
+       "if err != nil { return nil, err }", "_, err = w.Write(data)",
+       "if err != nil { w.Close() return nil, err }", "err = w.Close()",
+       "if err != nil { return nil, err }", "return buf.Bytes(), nil"] := by decide
+
+/-- cdc/service.go `leaderLoop`: when `flate.Decompress(ev.Data)` fails the loop forgets the
+event and goes on to the next one — the model's decompress DROP (`pump`, `undecodable`) -/
+theorem leader_decode_failure_is_a_drop :
+    RqModel.Gen.CdcPipe.leaderDecodeFailure = ["s.unsent = nil", "continue"] := by decide
 
 /-- with the drain, operations arriving while groups are still in the channel behave exactly
 like operations at quiescent points: the histories of `at_least_once_partial` cover them -/
